@@ -1,4 +1,8 @@
-"""C16 — no API call sequence causes undefined behaviour; misuse throws.  GROUNDWORK: the `abuse` family only.
+"""abuse_dims — an `abuse` program generator for C16 (no API call sequence causes undefined behaviour; misuse throws).
+
+NOT a check module of its own (checks/C16.py on main owns the property): use `cases(tier, seed, rng)` from there, run the programs on the
+ASan+UBSan flavour and judge only FATAL (`judge`).  `NO_DRIVER` / `HARNESS_TIMEOUT` are hints for a runner that honours them (a model replay of
+abused programs is not meaningful; a hang is a finding).
 
 Programs over the ops of every harness family (array / view, index, region, store incl. dimension descriptors on slots,
 dimdesc) are taken from the generators of the other checks and then ABUSED token by token: numbers become boundary / past-the-end
@@ -10,12 +14,14 @@ calls answer (ok / err) is not judged here — the other checks do that on well-
 Not claimed (CLAIMED = False): the index-safety theorems of DESIGN §3 C16 are not delivered on this branch."""
 import re
 from vlib.tok import f64, s as S, lst
-ID = 'C16'
+ID = 'abuse_dims'
 CLAIMED = False
 NA_REASON = ('abuse family (sanitizer correspondence) is in place and runs in both tiers on the ASan+UBSan flavour; the index-safety theorems of '
              'DESIGN.md §3 C16 (op_total, uninit_handle_throws, stale_handle_safe, nelms_wrap_guard) are not yet delivered, so the property is not claimed')
 FLAVOUR = {'quick': 'asan', 'thorough': 'asan'}
 THEOREMS = []
+HARNESS_TIMEOUT = 600    # seconds per harness batch: a hang is a finding (reported as FATAL TIMEOUT)
+NO_DRIVER = True          # abused programs are not replayed on the Lean model; only FATAL is judged
 RULE = ('programs of the array/view, index, region (tag, multi-tag, slice), store (entity tree, links, dimension descriptors and property values on '
         'slots) and dimdesc families, produced by the generators of C01 C04 C05 C06 C07 C13 C17 and then abused: ~35 % of the op lines get 1-2 tokens '
         'replaced by a boundary or invalid value of the same lexical type (integers 0 / n±1 / n+2 / 65536 / 10^6, lists with an entry dropped / one or '
@@ -35,6 +41,8 @@ def abuse_token(tok, rng, slots=None, depth=0):
     """a boundary / invalid value of the same lexical type; None = leave alone"""
     if re.fullmatch(r'\d+', tok):
         n = int(tok)
+        if depth > 0:         # an entry of a shape / count / offset / index list: the product of a list must stay allocatable
+            return str(rng.choice([0, 1, max(0, n - 1), n + 1, n + 2, 2 * n + 3, 255, 1000]))
         return str(rng.choice([0, 1, max(0, n - 1), n + 1, n + 2, 2 * n + 3, 255, 65536, 10 ** 6]))
     if re.fullmatch(r'-\d+', tok):
         return str(rng.choice([0, -1, int(tok) - 1, -2 ** 31, -2 ** 63]))
@@ -56,7 +64,10 @@ def abuse_token(tok, rng, slots=None, depth=0):
             i = rng.randrange(len(el))
             m = abuse_token(el[i], rng, slots, depth + 1)
             if m is not None: el[i] = m
-        return '[' + ','.join(el) + ']'
+        out = '[' + ','.join(el) + ']'
+        p = prod_of(out)
+        if p is not None and p > 10 ** 6: return None          # the harness itself fills arrays of that shape: keep it allocatable
+        return out
     if tok.startswith('x') and HEX.match(tok[1:]) and len(tok) % 2 == 1:
         return rng.choice(['x', 'x' + '61' * 300, tok + 'ff', 'x2f', 'x2e2e', 'x20'])
     if tok.startswith('$') and slots:
